@@ -157,6 +157,7 @@ func mergeCheck(c *Ctx, mc mergeCase, r *rand.Rand) (vs []dbViolation, evals int
 	// fault-free control: must succeed (its content is C08's business; a failing control is a harness problem)
 	err, _, out := runMerge(mc, none, -1)
 	evals++
+	Beat()
 	if err != nil {
 		panic(fmt.Sprintf("faultsim control run failed (outside this check's claim): %v", err))
 	}
@@ -168,6 +169,7 @@ func mergeCheck(c *Ctx, mc mergeCase, r *rand.Rand) (vs []dbViolation, evals int
 			f[t] = p
 			err, fired, _ := runMerge(mc, f, -1)
 			evals++
+			Beat()
 			c.Count("fault:iterator-next-error", fired)
 			if fired > 0 && err == nil {
 				add("fault-absorbed|iterator|"+name, fmt.Sprintf("%s returned nil although Next of input %d failed at record position %d of %d (inputs %v)", name, t, p, len(keys), mc.Tables))
@@ -178,6 +180,7 @@ func mergeCheck(c *Ctx, mc mergeCase, r *rand.Rand) (vs []dbViolation, evals int
 	for n := 0; n < writes; n++ {
 		err, fired, _ := runMerge(mc, none, n)
 		evals++
+		Beat()
 		c.Count("fault:writer-writenext-error", fired)
 		if fired > 0 && err == nil {
 			add("fault-absorbed|writer|"+name, fmt.Sprintf("%s returned nil although WriteNext #%d of %d failed (inputs %v)", name, n, writes, mc.Tables))
@@ -195,6 +198,7 @@ func mergeCheck(c *Ctx, mc mergeCase, r *rand.Rand) (vs []dbViolation, evals int
 		}
 		err, fired, _ := runMerge(mc, f, wf)
 		evals++
+		Beat()
 		if fired > 0 && err == nil {
 			add("fault-absorbed|double|"+name, fmt.Sprintf("%s returned nil although %d injected failures fired (iterator %d at %d, write %d)", name, fired, t, f[t], wf))
 			return
@@ -443,6 +447,7 @@ func faultsimMain(c *Ctx) {
 		c.Begin(seed, sysCase{DB: dc, N: -1})
 		ctl := runSysCase(c, sysCase{DB: dc, N: -1}, simrt.NewTape(seed))
 		c.Res.Evaluations++
+		Beat()
 		c.Count("eligible-background-syscalls", ctl.eligible)
 		for _, v := range ctl.vs {
 			reportSys(c, v, seed, sysCase{DB: dc, N: -1})
@@ -471,6 +476,7 @@ func faultsimMain(c *Ctx) {
 			c.Begin(seed, sc)
 			out := runSysCase(c, sc, simrt.NewTape(seed))
 			c.Res.Evaluations++
+			Beat()
 			c.RunHash(nil, seed, n, out.fired, out.stopped, out.kind, len(out.vs))
 			if out.fired > 0 {
 				c.Count("fault:"+digits.ReplaceAllString(out.kind, "N"), 1)
